@@ -229,6 +229,8 @@ pub fn t_cur_id() -> usize { unsafe { std::thread::CUR_ID } }
 pub fn t_late() -> usize { unsafe { std::thread::LATE } }
 pub fn t_early() -> usize { unsafe { std::thread::EARLY } }
 pub fn t_faulted() -> usize { unsafe { std::thread::FAULTED } }
+/// bit id set: thread id (1-based spawn order) was spawned faulted
+pub fn t_fault_mask() -> u32 { unsafe { std::thread::FAULT_MASK } }
 pub fn t_enable_faults() { unsafe { std::thread::FAULTS = true; } }
 /// number of joins that returned Err (a faulted thread whose failure reached its joiner)
 pub fn t_fault_seen() -> usize { unsafe { std::thread::FAULT_SEEN } }
@@ -241,6 +243,7 @@ pub fn names_off() { std::mstr::set_render(false); }
 pub fn t_set_name(n: &str) { std::thread::set_current_name(Some(std::mstr::MStr::from_str(n))); }
 pub fn k_spawned() -> usize { unsafe { tokio::SPAWNED } }
 pub fn k_faulted() -> usize { unsafe { tokio::FAULTED } }
+pub fn k_fault_mask() -> u32 { unsafe { tokio::FAULT_MASK } }
 pub fn k_enable_faults() { unsafe { tokio::FAULTS = true; } }
 pub fn k_fault_seen() -> usize { unsafe { tokio::FAULT_SEEN } }
 pub fn k_eager() -> usize { unsafe { tokio::EAGER } }
@@ -317,3 +320,5 @@ pub fn lv<T>(id: usize, v: T) -> T { call(id, 0xA5); v }
 /// generic logging identities usable as path operands of `->` (C14: which step an operator belongs to)
 pub fn tapa<T>(v: T) -> T { ev(140); v }
 pub fn tapb<T>(v: T) -> T { ev(141); v }
+pub use futures::{StreamExt, TryStreamExt};
+pub use futures::stream;
